@@ -215,6 +215,15 @@ class Algebra:
     def __len__(self):
         return 2 ** self.d
 
+    def __eq__(self, other):
+        # The signature is an array and is therefore excluded from the generated comparison; compare it
+        # here, such that algebras whose metric differs only in the ordering of the signature are not equal.
+        if not isinstance(other, Algebra):
+            return NotImplemented
+        return ((self.p, self.q, self.r, self.basis, self.cse, self.graded)
+                == (other.p, other.q, other.r, other.basis, other.cse, other.graded)
+                and np.array_equal(self.signature, other.signature))
+
     @cached_property
     def indices_for_grade(self):
         """
